@@ -550,6 +550,17 @@ func substTermFV(t *Term, env []*Term, fv map[string]*Term) *Term {
 	if nt.Op == "phi" {
 		return phiOf(nt.A)
 	}
+	if nt.Op == "cat" && len(nt.A) > 0 {
+		// re-normalise: a substituted segment may itself be a concatenation / a width-exact temporary
+		r := nt.A[0]
+		if len(nt.A) == 1 {
+			return catOf(r, &Term{Op: "buf", S: "0"})
+		}
+		for _, seg := range nt.A[1:] {
+			r = catOf(r, seg)
+		}
+		return r
+	}
 	if nt.Op == "call" && commutative[nt.S] && len(nt.A) == 2 && nt.A[1].String() < nt.A[0].String() {
 		nt.A[0], nt.A[1] = nt.A[1], nt.A[0]
 	}
